@@ -126,7 +126,7 @@ fn attribute_inputs(full: bool) -> Vec<Input> {
     let mut out = Vec::new();
     let eps: Vec<usize> = if full { (0..ps.len()).collect() } else { vec![0, 1, 3] };
     let nps: Vec<usize> = if full { (0..ps.len()).collect() } else { vec![0, 2, 3] };
-    for shape in 0..4 {
+    for shape in 0..5 {
         for l0 in labels {
             for l1 in labels {
                 for &p0 in &nps {
@@ -142,7 +142,10 @@ fn attribute_inputs(full: bool) -> Vec<Input> {
                                     0 => vec![],
                                     1 => vec![e(0, 1)],
                                     2 => vec![e(1, 0), e(0, 1)],
-                                    _ => vec![e(1, 1), BEdge { s: 0, t: "S", d: 1, props: vec![] }],
+                                    3 => vec![e(1, 1), BEdge { s: 0, t: "S", d: 1, props: vec![] }],
+                                    // the same (start, type, end) twice with different property maps: the later map
+                                    // overrides `k` and adds `w2` (the properties of parallel relationships share one key)
+                                    _ => vec![e(0, 1), BEdge { s: 0, t, d: 1, props: vec![("k", PropertyValue::Int(7)), ("w2", PropertyValue::Float(0.5))] }],
                                 };
                                 out.push(Input { nodes, edges });
                             }
@@ -363,7 +366,7 @@ fn run_input(inp: &Input, dir: &Path) -> (Option<(String, String)>, u64) {
 
 pub fn c30(tier: Tier) -> i32 {
     let rep = Report::new("C30", tier);
-    rep.rule("every input of two families: (1) 0..=3 nodes with fixed labels and every multiset of at most E relationships over all (start, type in {R,S}, end) triples incl. self-loops, with multiplicity up to 2 (parallel relationships); (2) two nodes x every combination of labels {A, B, R (also a relationship type)}, node property sets (Int, String, Float, Bool, List, Null, Map, DateTime, Blob, a 24 KiB multi-page String), relationship property sets and relationship type {R, A (also a label)} on four shapes (no relationship, one, a 2-cycle, self-loop + second type); external ids are deliberately not ascending and include 0 (0, 3, 900). Each input is loaded by nervusdb::bulkload into one database and by ONE committed transaction (same order) into another; oracle at five stages (fresh, after reopen, after the same follow-up transaction on both, after compaction, after a second reopen): full dumps through every read interface are equal, and 22 queries (outgoing / incoming / undirected / typed / variable-length / OPTIONAL / properties / keys / pattern predicate) return equal row multisets or the same failure; non-trivial = inputs with at least one relationship or property");
+    rep.rule("every input of two families: (1) 0..=3 nodes with fixed labels and every multiset of at most E relationships over all (start, type in {R,S}, end) triples incl. self-loops, with multiplicity up to 2 (parallel relationships); (2) two nodes x every combination of labels {A, B, R (also a relationship type)}, node property sets (Int, String, Float, Bool, List, Null, Map, DateTime, Blob, a 24 KiB multi-page String), relationship property sets and relationship type {R, A (also a label)} on five shapes (no relationship, one, a 2-cycle, self-loop + second type, the same relationship given twice with different property maps); external ids are deliberately not ascending and include 0 (0, 3, 900). Each input is loaded by nervusdb::bulkload into one database and by ONE committed transaction (same order) into another; oracle at five stages (fresh, after reopen, after the same follow-up transaction on both, after compaction, after a second reopen): full dumps through every read interface are equal, and 22 queries (outgoing / incoming / undirected / typed / variable-length / OPTIONAL / properties / keys / pattern predicate) return equal row multisets or the same failure; non-trivial = inputs with at least one relationship or property");
     let e = tier.pick(2usize, 3);
     let mut inputs = shape_inputs(e);
     let n_shape = inputs.len();
